@@ -200,10 +200,17 @@ def run(rep, pid, feats, n, findings, rule, gover="1.21", tapes=3, histlen=10, b
         names = {0: "model_rejects", 1: "model_output_not_legal", 2: "legal_but_outside_proved_fragment", 3: "within_C01_theorem"}
         cnt = {v: 0 for v in names.values()}
         cnt["within_end_to_end_machine_theorem"] = 0
-        for h in hyps:
+        cnt["within_C01_theorem_with_input_only_side_conditions"] = 0
+        nf = [h >= 10 for h in hyps]     # +10: c01_hyps_nf (no fallthrough; legality of the output is a theorem, P3Legal.v)
+        hyps = [h % 10 for h in hyps]
+        for h, f in zip(hyps, nf):
             cnt[names[min(h, 3)]] += 1
             if h == 4:   # code 4: c01_hyps and no native Yield left in the model output (Link.v / LinkMachine.v)
                 cnt["within_end_to_end_machine_theorem"] += 1
+            if f:
+                cnt["within_C01_theorem_with_input_only_side_conditions"] += 1
+        # the derived legality must agree with the checked one: input-only side conditions hold => the output is legal
+        cnt["input_only_conditions_hold_but_output_not_legal"] = sum(1 for h, f in zip(hyps, nf) if f and h < 2)
         rep.coverage["theorem_side_conditions"] = cnt
         rep.coverage["legal_per_model_but_go_rejects_output"] = sum(
             1 for e, h in zip(ents, hyps) if h >= 2 and e[2][0] == "tree" and R["status"].get(e[0], "ok") != "ok")
